@@ -636,7 +636,7 @@ def pAttrs : Nat → Attrs → List Char → Res (Value × List Char)
     | .ok (nm, r, quoted) =>
       match r with
       -- a quoted name at the very end of the document: the final-segment parser only knows identifiers
-      | [] => if quoted then .err else .ok (.record (acc.append (.cons nm .extant .nil)) .nil, [])
+      | [] => if quoted && !finalAttrNameQuoted then .err else .ok (.record (acc.append (.cons nm .extant .nil)) .nil, [])
       | '(' :: r' =>
         match pItems fuel .ab false r' with
         | .ok (its, rest) => pAfterAttr fuel (acc.append (.cons nm (attrBody its) .nil)) rest
